@@ -54,6 +54,10 @@ def box(name):
         return B(3, 'x', (2, 2, 1), 2), ALL3, 'x'
     if name == 'b':
         return B(2, 'abc', 2, 2, render=COLL), DYN, 'ab'
+    if name == 'bb':        # the same colliding strings under lexer=basic: judged in *tokenised* mode (reference lexer first)
+        return B(2, 'abc', 2, 2, render=COLL), ('basic',), 'ab'
+    if name == 'bbi':
+        return B(2, 'abc', (2, 1), 2, render=COLL, ignore=('WS',), extra_terms=(WS,)), ('basic',), 'ab '
     if name == 'bi':
         return B(2, 'abc', 2, 2, render=COLL, ignore=('WS',), extra_terms=(WS,)), DYN, 'ab '
     if name == 'bs':
@@ -82,10 +86,10 @@ def box(name):
 # (box, slice modulus k or 1, input length L)
 QUICK = [('a1', 1, 5), ('e1', 1, 4), ('a2', 8, 4), ('a2i', 32, 4), ('b', 64, 4), ('bi', 256, 4), ('bs', 32, 4),
          ('d', 32, 4), ('d16', 16, 4), ('e2', 16, 3),
-         ('ig2', 16, 4), ('ig2r', 16, 4), ('nm1', 16, 4), ('nm2', 64, 3)]
+         ('ig2', 16, 4), ('ig2r', 16, 4), ('nm1', 16, 4), ('nm2', 64, 3), ('bb', 32, 4), ('bbi', 32, 4)]
 THOROUGH = [('a1', 1, 6), ('e1', 1, 5), ('a2', 1, 5), ('a2i', 2, 4), ('b', 4, 4), ('bi', 16, 4), ('bs', 2, 5),
             ('d', 2, 4), ('d16', 1, 5), ('e2', 1, 4), ('e2i', 4, 4), ('a3', 4, 4), ('k3', 4, 5),
-            ('ig2', 1, 4), ('ig2r', 1, 4), ('nm1', 1, 5), ('nm2', 2, 3)]
+            ('ig2', 1, 4), ('ig2r', 1, 4), ('nm1', 1, 5), ('nm2', 2, 3), ('bb', 2, 5), ('bbi', 2, 4)]
 CHUNK = 96
 
 
@@ -126,6 +130,17 @@ def nonlongest_terms(g, text):
     return bad
 
 
+def tokenised_accepts(g, w):
+    """lexer=basic with colliding terminals: the documented tiling first (reference lexer of C07), then the CFG over the
+    token string."""
+    used = {k[1] for k in gram.term_keys(g) if k[0] == 'tok'}      # lark drops terminals no rule refers to
+    tdefs = [reflex.TDef(t.name, t.pats[0][0], t.pats[0][1], t.pats[0][2], t.prio) for t in g.terms.values() if t.name in used]
+    lx = reflex.lex_basic(tdefs, set(g.ignore), w)
+    if lx[0] != 'ok':
+        return False
+    return refsem.accepts(g, refsem.Edges.tokens(g, [('tok', typ) for typ, _, _ in lx[1]]))
+
+
 def check_grammar(g, lexers, inputs, res, boxname, gidx):
     gtext = g.text()
     rec = any(it[0] == 'ref' for r in g.rules.values() for s, _ in r.alts for it in gram.items_of(s))
@@ -149,7 +164,10 @@ def check_grammar(g, lexers, inputs, res, boxname, gidx):
         mode = ref_modes(lexer)
         for w in inputs:
             if (mode, w) not in refcache:
-                refcache[mode, w] = refsem.accepts(g, refsem.Edges.chars(g, w, mode))
+                if boxname in ('bb', 'bbi'):
+                    refcache[mode, w] = tokenised_accepts(g, w)
+                else:
+                    refcache[mode, w] = refsem.accepts(g, refsem.Edges.chars(g, w, mode))
             want = refcache[mode, w]
             o = larkio.outcome(larkio.parse(p, w))
             res['evals'] += 1
